@@ -5,6 +5,7 @@
 import Cog.Builder.Vir
 import Cog.Builder.FromAST
 import Cog.Builder.Safe
+import Cog.Builder.Witness
 namespace Cog.Drv
 open Cog Cog.IR Cog.Builder
 
@@ -30,5 +31,12 @@ def c16predLine (rest : String) : String :=
           | none => false
         | _ => true
       s!"safe={Safe ss} nocr={nocr}"
+
+/-- `c16witness <name>`: VIR text of the Lean-side counterexample witness -/
+def c16witnessLine (rest : String) : String :=
+  match rest.trimAscii.toString with
+  | "dangling" => (IR.Vir.schemasOut danglingWitness).render
+  | "optional-const-ref" => (IR.Vir.schemasOut optionalConstRefWitness).render
+  | _ => "unknown-witness"
 
 end Cog.Drv
